@@ -327,6 +327,10 @@ def run_check(prop, tier, seed, workers=None, runs=None, wall=None):
 
 
 def write_evidence(prop, tier, seed, engines, agg, wall_s, nviol, rc):
+    if os.path.realpath(core.REPO) != "/repo":
+        # a self-test against a scratch copy (SYMSIM_REPO): evidence files only
+        # ever describe runs against /repo itself
+        return
     st = agg["stats"]
     faults = {k: v for k, v in sorted(st.items()) if k.startswith("fault.")}
     reach = {k: v for k, v in sorted(st.items()) if k.startswith("reach.")}
